@@ -123,6 +123,9 @@ Definition bind {A B} (p : parser A) (f : A -> parser B) : parser B := fun i =>
 Notation "x <- p ;; q" := (bind p (fun x => q)) (at level 61, p at next level, right associativity).
 Notation "p ;;; q" := (bind p (fun _ => q)) (at level 61, right associativity).
 
+(* run a fuelled parser with fuel |input| + 1 *)
+Definition with_len {A} (f : nat -> parser A) : parser A := fun i => f (S (length i)) i.
+
 (* Parser::map *)
 Definition pmap {A B} (f : A -> B) (p : parser A) : parser B := x <- p ;; ret (f x).
 
@@ -194,13 +197,25 @@ Definition separated0 {A B} (elem : parser A) (sep : parser B) : parser (list A)
   | (NoFuel, i1) => (NoFuel, i1)
   end.
 
+(* combinator::separated(1.., elem, sep) (multi.rs:1164-1217): the first element is mandatory *)
+Definition separated1 {A B} (elem : parser A) (sep : parser B) : parser (list A) := fun i =>
+  match elem i with
+  | (Ok x, i1) =>
+      match sep_loop (S (length i1)) elem sep i1 with
+      | (Ok l, i2) => (Ok (x :: l), i2)
+      | e => e
+      end
+  | (Back, i1) => (Back, i1)
+  | (Panic, i1) => (Panic, i1)
+  | (NoFuel, i1) => (NoFuel, i1)
+  end.
+
 (* ------------------------------------------------------------------ character classes (core::u8) *)
 
 (* ascii::multispace0 = take_while(0.., (' ', '\t', '\r', '\n')) *)
 Definition is_ms (b : byte) : bool := (b =? 32) || (b =? 9) || (b =? 13) || (b =? 10).
-(* u8::is_ascii_whitespace: space, \t, \n, \x0C, \r *)
-Definition is_ascii_ws (b : byte) : bool :=
-  (b =? 32) || (b =? 9) || (b =? 10) || (b =? 12) || (b =? 13).
+(* ascii::multispace1 = take_while(1.., (' ', '\t', '\r', '\n')) *)
+Definition multispace1 : parser (list byte) := take_while1 is_ms.
 
 Definition skip_ms (i : list byte) : list byte := snd (span is_ms i).
 
@@ -234,12 +249,24 @@ Definition whitespace_only : parser unit := fun i => (Ok tt, skip_ms i).
 Definition bytes_to_str (b : list byte) : parser (list byte) := fun i =>
   if utf8_valid b then (Ok b, i) else (Panic, i).
 
-(* 79-97 field_name *)
-Definition is_field_char (b : byte) : bool := is_alnum b || (b =? 95).
+(* field_name: a letter, then alphanumerics each optionally preceded by one underscore: the loop takes an alphanumeric, or an underscore
+   that is followed by an alphanumeric, and stops otherwise *)
+Fixpoint field_tail (l : list byte) : list byte * list byte :=
+  match l with
+  | b :: r =>
+      if is_alnum b then let (a, r') := field_tail r in (b :: a, r')
+      else if b =? 95 then
+        match r with
+        | c :: r2 => if is_alnum c then let (a, r') := field_tail r2 in (b :: c :: a, r') else ([], l)
+        | [] => ([], l)
+        end
+      else ([], l)
+  | [] => ([], [])
+  end.
 Definition field_name : parser name := fun i =>
   match i with
   | b :: r =>
-      if is_alpha b then let (a, r') := span is_field_char r in bytes_to_str (b :: a) r'
+      if is_alpha b then let (a, r') := field_tail r in bytes_to_str (b :: a) r'
       else (Back, i)
   | [] => (Back, i)
   end.
@@ -264,10 +291,12 @@ Definition primitive_type : parser ty := pmap TPrim (prim_alt kw_prims).
 
 (* 464-477 comment_def *)
 Definition is_sp_tab (b : byte) : bool := (b =? 32) || (b =? 9).
+(* `while !input.is_empty() && (input[0] == b' ' || input[0] == b'\t') { *input = &input[1..]; }` *)
+Definition skip_sp_tab : parser unit := fun i => (Ok tt, snd (span is_sp_tab i)).
 Definition comment_def : parser comment :=
   literal (bs "#") ;;;
-  (fun i => (Ok tt, snd (span is_sp_tab i))) ;;;
-  line <- take_while0 (fun c => negb (c =? 10)) ;;
+  skip_sp_tab ;;;
+  line <- take_while0 (fun c => negb (c =? 10) && negb (c =? 13)) ;;
   bytes_to_str line.
 
 (* 440-462 parse_preceding_comments *)
@@ -321,27 +350,12 @@ Section TypeParsers.
   (* 151-164 enum_type *)
   Definition enum_type : parser ty :=
     literal (bs "(") ;;; ws ;;;
-    ns <- separated0 field_name comma_sep ;;
+    ns <- separated1 field_name comma_sep ;;
     ws ;;; literal (bs ")") ;;;
     ret (TEnum (List.map (fun n => mkVariant n []) ns)).
 
-  (* 168-180 inline_type: textual look-ahead for ':' before the first ')' ; `&input[1..pos]`
-     panics when pos = 0 *)
-  Fixpoint position (x : byte) (l : list byte) : option nat :=
-    match l with
-    | [] => None
-    | b :: l' => if b =? x then Some O else match position x l' with Some n => Some (S n) | None => None end
-    end.
-  Definition inline_type : parser ty := fun i =>
-    match position 41 i with
-    | Some pos =>
-        match pos with
-        | O => (Panic, i)
-        | S k =>
-            if existsb (fun b => b =? 58) (firstn k (skipn 1 i)) then struct_type i else enum_type i
-        end
-    | None => (Back, i)
-    end.
+  (* inline_type: alt((struct_type, enum_type)) *)
+  Definition inline_type : parser ty := alt2 struct_type enum_type.
 
   (* 183-185 element_type *)
   Definition element_type : parser ty :=
@@ -370,8 +384,22 @@ Fixpoint varlink_type_f (fuel : nat) : parser ty :=
   end.
 Definition varlink_type : parser ty := fun i => varlink_type_f (S (length i)) i.
 
-(* 219-259 interface_name *)
+(* interface_name: a first segment starting with a letter, then one or more dot-separated
+   segments starting with a letter or digit; segment bodies are alphanumerics and dashes and do
+   not end in a dash *)
 Definition is_seg_char (b : byte) : bool := is_alnum b || (b =? 45).
+(* `while seg_char { pos += 1 }` followed by `while input[pos - 1] == '-' { pos -= 1 }`: the
+   longest run of alphanumerics and dashes, minus its trailing dashes (the byte before the run is
+   never a dash). Returns (taken, rest). *)
+Fixpoint strip_dashes_rev (r : list byte) (back : list byte) : list byte * list byte :=
+  match r with
+  | b :: r' => if b =? 45 then strip_dashes_rev r' (b :: back) else (r, back)
+  | [] => ([], back)
+  end.
+Definition seg_body (i : list byte) : list byte * list byte :=
+  let (a, rest) := span is_seg_char i in
+  let (ar, dashes) := strip_dashes_rev (rev a) [] in
+  (rev ar, dashes ++ rest).
 (* the `while pos < len && input[pos] == '.'` loop: returns (found_dot, consumed, rest) *)
 Fixpoint iname_segments (fuel : nat) (i : list byte) : bool * list byte * list byte :=
   match fuel with
@@ -383,11 +411,11 @@ Fixpoint iname_segments (fuel : nat) (i : list byte) : bool * list byte * list b
         match r with
         | c :: r' =>
             if is_alnum c then
-              let (a, r'') := span is_seg_char r' in
+              let (a, r'') := seg_body r' in
               let '(_, more, rest) := iname_segments fuel r'' in
               (true, b :: c :: a ++ more, rest)
-            else (true, [b], r)                  (* dot consumed, then break *)
-        | [] => (true, [b], r)
+            else (false, [], i)                  (* the dot is not part of the name: break *)
+        | [] => (false, [], i)
         end
       else (false, [], i)
     | [] => (false, [], i)
@@ -397,7 +425,7 @@ Definition interface_name : parser name := fun i =>
   match i with
   | b :: r =>
       if is_alpha b then
-        let (a, r1) := span is_seg_char r in
+        let (a, r1) := seg_body r in
         let '(found_dot, more, rest) := iname_segments (S (length r1)) r1 in
         if found_dot then bytes_to_str (b :: a ++ more) rest else (Back, i)
       else (Back, i)
@@ -440,13 +468,13 @@ Definition parameter_list : parser (list field) :=
   literal (bs "(") ;;; whitespace_only ;;;
   close <- try_literal (bs ")") ;;
   if close then ret []
-  else fun i => (l <- entries_loop param_entry (S (length i)) ;; ret (lefts l)) i.
+  else with_len (fun fuel => l <- entries_loop param_entry fuel ;; ret (lefts l)).
 
 (* 316-335 method_def *)
 Definition method_def : parser method :=
   cs <- parse_preceding_comments ;;
   literal kw_method ;;;
-  take_while1 is_ascii_ws ;;;
+  multispace1 ;;;
   n <- type_name ;;
   ws ;;;
   ins <- parameter_list ;;
@@ -458,7 +486,7 @@ Definition method_def : parser method :=
 Definition error_def : parser error :=
   cs <- parse_preceding_comments ;;
   literal kw_error ;;;
-  take_while1 is_ascii_ws ;;;
+  multispace1 ;;;
   n <- type_name ;;
   ws ;;;
   ps <- parameter_list ;;
@@ -478,24 +506,23 @@ Definition typedef_entry : parser (field + variant) :=
 Definition type_def : parser custom :=
   cs <- parse_preceding_comments ;;
   literal kw_type ;;;
-  take_while1 is_ascii_ws ;;;
+  multispace1 ;;;
   n <- type_name ;;
   ws ;;;
   literal (bs "(") ;;; whitespace_only ;;;
   close <- try_literal (bs ")") ;;
   if close then ret (CObject n [] cs)
-  else fun i =>
-    (l <- entries_loop typedef_entry (S (length i)) ;;
+  else with_len (fun fuel =>
+     l <- entries_loop typedef_entry fuel ;;
      let fields := lefts l in
      let variants := rights l in
      let has_typed := match fields with [] => false | _ => true end in
      let has_untyped := match variants with [] => false | _ => true end in
      if has_typed && has_untyped then fail
      else if has_typed then ret (CObject n fields cs)
-     else ret (CEnum n variants cs)) i.
+     else ret (CEnum n variants cs)).
 
-(* 493-519 the member loop of interface_def; `Err(_) => break` leaves the input where the failed
-   alt left it *)
+(* the member loop of interface_def; a member that does not parse stays in the input *)
 Definition member_p : parser member :=
   alt2 (pmap MType type_def) (alt2 (pmap MMethod method_def) (pmap MError error_def)).
 Fixpoint members_loop (fuel : nat) (i : list byte) : res (list member) * list byte :=
@@ -515,7 +542,7 @@ Fixpoint members_loop (fuel : nat) (i : list byte) : res (list member) * list by
             | (Ok ms, i3) => (Ok (m :: ms), i3)
             | e => e
             end
-        | (Back, i2) => (Ok [], i2)
+        | (Back, _) => (Ok [], i1)             (* `*input = member_start; break` *)
         | (Panic, i2) => (Panic, i2)
         | (NoFuel, i2) => (NoFuel, i2)
         end
@@ -523,14 +550,14 @@ Fixpoint members_loop (fuel : nat) (i : list byte) : res (list member) * list by
     end
   end.
 
-(* 480-528 interface_def *)
+(* interface_def *)
 Definition interface_def : parser interface :=
   cs <- parse_preceding_comments ;;
   literal kw_interface ;;;
-  take_while1 is_ascii_ws ;;;
+  multispace1 ;;;
   n <- interface_name ;;
   whitespace_only ;;;
-  ms <- (fun i => members_loop (S (length i)) i) ;;
+  ms <- with_len members_loop ;;
   ret (interface_of n cs ms).
 
 (* 531-562 parse_interface / parse_from_str *)
